@@ -1274,15 +1274,17 @@ def run(chk):       # noqa: F811
 # entity.  The phrases are written here independently of the repository (standard spellings with their integer; the
 # integer documents the phrase, the rule decides extraction only).  Cultures whose registered extractor overrides
 # `extract` (the merged extractors of en/de/nl/it glue adjacent matches) are exempt: there the clause is not necessary.
-# Not listed on purpose: fr 'mille cinq cents' / 'deux cents' (plural 'cents' is not accepted by the pinned patterns -
-# a separate upstream defect, reproduced against the real code, outside this rule's reference).
+# fr 'deux cents' / 'mille cinq cents': the plural 'cents' is not accepted by the pinned patterns - a genuine upstream
+# defect reproduced against the real code ('deux cents' -> 2, 'mille cinq cents' -> 'mille cinq' = 1005); the two phrases
+# are listed and the two violations are recorded in known_findings.json.
 
 PHRASES = {
     'es-es': {'treinta y uno': 31, 'ciento cinco': 105, 'mil quinientos': 1500, 'dos mil veintiuno': 2021, 'veintiún mil': 21000,
               'doscientos cincuenta mil': 250000, 'un millón doscientos mil': 1200000, 'tres millones quinientos mil': 3500000,
               'novecientos noventa y nueve mil novecientos noventa y nueve': 999999},
     'fr-fr': {'vingt et un': 21, 'quatre-vingt-dix-neuf': 99, 'cent cinq': 105, 'deux mille vingt et un': 2021,
-              'deux cent cinquante mille': 250000, 'un million deux cent mille': 1200000, 'trois millions cinq cent mille': 3500000},
+              'deux cent cinquante mille': 250000, 'un million deux cent mille': 1200000, 'trois millions cinq cent mille': 3500000,
+              'deux cents': 200, 'mille cinq cents': 1500},
     'pt-br': {'vinte e um': 21, 'cento e cinco': 105, 'mil e quinhentos': 1500, 'dois mil e vinte e um': 2021,
               'vinte mil e quinhentos': 20500, 'cem mil e um': 100001, 'um milhão e um': 1000001, 'um milhão e quinhentos': 1000500,
               'um milhão duzentos mil': 1200000, 'um milhão duzentos e trinta mil': 1230000,
